@@ -30,6 +30,9 @@ type c04Log struct {
 	Data  []byte
 	Ends  []int // end offset of each complete command (ascending); Ends[0]=0 is implicit
 	dumps map[int]string
+	// gen: dump of the generating (live) server after each command, by end
+	// offset - an oracle that does not go through the loader at all.
+	gen map[int]string
 }
 
 func c04Commands(kind string) [][]string {
@@ -70,6 +73,15 @@ func c04Commands(kind string) [][]string {
 			{"SET", "km", "a", "POINT", "1", "2"},
 			{"SET", "km", "pad", "STRING", "PAD"},
 			{"SET", "km", "b", "POINT", "3", "4"},
+		}
+	case "nulblock":
+		// sized below so that the first NUL byte of the binary argument is the
+		// first byte of the second 0xFFFF-byte read block
+		return [][]string{
+			{"SET", "kz", "a", "POINT", "1", "2"},
+			{"SET", "kz", "pad", "STRING", "PAD\x00\x00q\x00r"},
+			{"SET", "kz", "b", "POINT", "3", "4"},
+			{"SET", "kz", "\x00lead", "STRING", "\x00"},
 		}
 	case "many":
 		var out [][]string
@@ -118,12 +130,34 @@ func c04BuildLog(job *Job, kind string) *c04Log {
 			need -= tot - target
 		}
 	}
+	if kind == "nulblock" {
+		need := 0xFFFF - 100
+		for try := 0; try < 10; try++ {
+			cmds[1][4] = strings.Repeat("p", need) + "\x00\x00q\x00r"
+			var all []byte
+			for _, c := range cmds {
+				all = append(all, respCmd(c...)...)
+			}
+			at := bytes.IndexByte(all, 0)
+			if at == 0xFFFF {
+				break
+			}
+			need += 0xFFFF - at
+		}
+	}
 	var data []byte
+	gen := map[int]string{}
 	x := runExec(job, freezeAllBut(), func(x *Exec) {
 		in := x.Start("G", x.dir+"/G", 9001, nil)
 		c := x.Dial(in.Addr)
+		f := filepath.Join(in.Dir, "appendonly.aof")
 		for _, cmd := range cmds {
 			c.Do(cmd...)
+			if len(cmds) <= 80 {
+				if fi, err := os.Stat(f); err == nil {
+					gen[int(fi.Size())] = fullDump(c)
+				}
+			}
 		}
 		c.Close()
 		in.Stop()
@@ -132,7 +166,7 @@ func c04BuildLog(job *Job, kind string) *c04Log {
 	if x.Err != "" || len(data) == 0 {
 		panic("c04: cannot generate log " + kind + ": " + x.Err)
 	}
-	return &c04Log{Name: kind, Data: data, Ends: c04Boundaries(data), dumps: map[int]string{}}
+	return &c04Log{Name: kind, Data: data, Ends: c04Boundaries(data), dumps: map[int]string{}, gen: gen}
 }
 
 // boundaryAt returns the largest command boundary <= off.
@@ -168,6 +202,9 @@ func c04Case(job *Job, res *Result, l *c04Log, label string, content []byte, bou
 		c.Close()
 		in.Stop()
 		l.dumps[boundary] = d
+		if g, ok := l.gen[boundary]; ok && g != d {
+			viol("reload-differs-from-live", fmt.Sprintf("a server started on the complete commands [0,%d) has %s, the server that wrote them had %s", boundary, vclip(d, 300), vclip(g, 300)))
+		}
 		return d
 	}
 	x := runExec(job, freezeAllBut(), func(x *Exec) {
@@ -176,6 +213,10 @@ func c04Case(job *Job, res *Result, l *c04Log, label string, content []byte, bou
 		os.MkdirAll(dir, 0700)
 		f := filepath.Join(dir, "appendonly.aof")
 		os.WriteFile(f, content, 0600)
+		ro := replay["ro"] == true
+		if ro {
+			os.WriteFile(filepath.Join(dir, "config"), []byte(`{"read_only":true}`), 0600)
+		}
 		in, err := x.TryStart("T", dir, 9001, nil)
 		if err != nil {
 			viol("start-fails", fmt.Sprintf("server does not start: %v", err))
@@ -183,6 +224,14 @@ func c04Case(job *Job, res *Result, l *c04Log, label string, content []byte, bou
 		}
 		c := x.Dial(in.Addr)
 		d := fullDump(c)
+		if ro {
+			if r := c.Do(c04ExtraCmd...); !strings.Contains(r.String(), "read only") {
+				viol("read-only-ignored", "a server configured read-only replied "+r.String()+" to a write")
+			}
+			if r := c.Do("READONLY", "no"); r.String() != "+OK" {
+				viol("readonly-no", "READONLY no replied "+r.String())
+			}
+		}
 		if d != ref {
 			viol("state", fmt.Sprintf("recovered state differs from the state of the complete commands before the tear: got %s want %s", vclip(d, 400), vclip(ref, 400)))
 		}
@@ -261,7 +310,7 @@ func checkC04(job *Job, res *Result) {
 	res.Assumptions = append(res.Assumptions,
 		"a tear is a truncation at a byte offset (a crash during an append); zero padding is a run of NUL bytes at a command boundary",
 		"reference state for an offset = state of a real server started on the log cut at the preceding command boundary (differential, no hand-written expectation)")
-	kinds := []string{"kinds", "binary", "large", "multiple", "many"}
+	kinds := []string{"kinds", "binary", "large", "multiple", "nulblock", "many"}
 	thorough := job.Tier == "thorough"
 	caseNo := 0
 	mine := func() bool {
@@ -339,8 +388,15 @@ func checkC04(job *Job, res *Result) {
 				continue
 			}
 			b := l.boundaryAt(o)
-			c04Case(job, res, l, fmt.Sprintf("log %s (%d bytes) torn at offset %d, last complete command ends at %d", kind, len(l.Data), o, b),
-				l.Data[:o], b, b, map[string]any{"log": kind, "kind": "tear", "offset": o})
+			if only == nil || only["ro"] != true {
+				c04Case(job, res, l, fmt.Sprintf("log %s (%d bytes) torn at offset %d, last complete command ends at %d", kind, len(l.Data), o, b),
+					l.Data[:o], b, b, map[string]any{"log": kind, "kind": "tear", "offset": o})
+			}
+			if only != nil && only["ro"] == true || only == nil && (small && (kind == "binary" || o%7 == 0) || !small && o%0xFFFF < 2) {
+				// the same tear met by a server configured read-only, made writable afterwards
+				c04Case(job, res, l, fmt.Sprintf("log %s (%d bytes) torn at offset %d, server configured read_only then READONLY no", kind, len(l.Data), o),
+					l.Data[:o], b, b, map[string]any{"log": kind, "kind": "tear", "offset": o, "ro": true})
+			}
 		}
 		// ---- zero padding at every command boundary (+ optional torn tail)
 		ends := append([]int{0}, l.Ends...)
